@@ -98,6 +98,14 @@ func c05Case(sc *streamCase, idx int, st *Stats) *Violation {
 	if !valid && out.Err == "" {
 		return mk("C05.invalid-accepted", "input with syntax errors (or mixed indentation, or empty) was loaded")
 	}
+	if out.Err == "" {
+		// the verdict above shares the lexer with the loader; the mixed-indentation rule is checked from the bytes too
+		for i := range sc.Readers {
+			if mixed, line := mixedIndentInBody(sc.Readers[i].bytes()); mixed {
+				return mk("C05.invalid-accepted", fmt.Sprintf("line %d of reader %d is indented with tabs AND spaces, yet the input was loaded", line, i))
+			}
+		}
+	}
 	if valid && validSeed(sc.Seed) && out.Err != "" {
 		return mk("C05.valid-rejected", "syntactically valid input with a valid seed was refused")
 	}
